@@ -182,6 +182,7 @@ func (l *LoopS) mapTerms(f func(*Term) *Term) {
 	l.Guard = m(l.Guard)
 	l.Cont = m(l.Cont)
 	l.Trip = m(l.Trip)
+	l.Bound = m(l.Bound)
 	for _, c := range l.Carried {
 		c.Init = m(c.Init)
 		c.Next = m(c.Next)
